@@ -146,6 +146,12 @@ class TDroB(TypedDict):
 class TDmix(TypedDict):
     x: int
     y: NotRequired[str]
+class TDy(TypedDict):
+    y: str
+class TDzopt(TypedDict, total=False):
+    z: int
+class TDroopt(TypedDict):
+    x: ReadOnly[NotRequired[int]]
 class TDG(TypedDict, Generic[T]):
     x: T
 
@@ -251,7 +257,7 @@ ATOMS: dict[str, str] = {
     "NT": "NT", "NTsub": "NTsub", "NTA": "NTA", "NTG_int": "NTG[int]", "NTG_bool": "NTG[bool]",
     # typed dicts
     "TD1": "TD1", "TD2": "TD2", "TD2b": "TD2b", "TDopt": "TDopt", "TDro": "TDro", "TDroA": "TDroA", "TDroB": "TDroB",
-    "TDmix": "TDmix", "TDG_int": "TDG[int]", "TDG_bool": "TDG[bool]",
+    "TDmix": "TDmix", "TDy": "TDy", "TDzopt": "TDzopt", "TDroopt": "TDroopt", "TDG_int": "TDG[int]", "TDG_bool": "TDG[bool]",
     # callables
     "call_NT_A": "Callable[[NT], A]", "call_NTA_A": "Callable[[NTA], A]", "Contra_call_ell": "Contra[Callable[..., object]]",
     "Contra_call_A": "Contra[Callable[[A], B]]", "call_str_str": "Callable[[str], str]",
@@ -299,7 +305,7 @@ def universe_names() -> list[str]:
 # deeper random types: source expressions only (analysed by the real build)
 
 _LEAVES = ["A", "B", "C", "D", "E", "F", "int", "bool", "str", "float", "None", "object", "Never", "Color", "Two2", "NT",
-           "NTA", "TD1", "TD2", "TDro", "TDopt", "HasX", "HasXY", "ImplX", "ImplXY", "RecP", "ImplRec", "Closer",
+           "NTA", "TD1", "TD2", "TDro", "TDopt", "TDy", "TDzopt", "HasX", "HasXY", "ImplX", "ImplXY", "RecP", "ImplRec", "Closer",
            "ImplClose", "CallP", "ImplCall", "Literal[1]", "Literal['a']", "Literal[True]", "Literal[Color.R]",
            "Literal[Two2.ONE]", "Literal[Two2.TWO]", "JSON", "Nested", "NestedB", "RecTup", "InvB", "CoA", "Mixed",
            "bytes", "type", "Empty"]
